@@ -1,4 +1,5 @@
 """C20 Block / length / sample accounting (DESIGN §4.C20)."""
+import ast
 from vstatic import terms as T
 from vstatic.terms import sym, Term, lift, pretty
 from .common import B, selfattr, kind_of, header_terms, RECORD_NO_INLINE, record_block_requests
@@ -118,17 +119,21 @@ def run(ctx):
                 'subblock_T = num_taps*ceil(T/num_taps/num_subblocks): the trailing partial sub-block is kept, so the sub-blocks cover '
                 'the whole block', cdb, nsb[0].data['value'],
                 ctx.spec(cdb, 'int(xp.ceil(TT / ST))', env={'TT': TT, 'ST': ST}, I=J), node=nsb[0].node)
-    # the loop-carried window count: its only in-loop update is the shortened last sub-block
-    lastW = [e for e in Ic.events if e.kind == 'store' and e.data.get('target') == 'name' and e.loops and len(e.loops) == 1
-             and e.data.get('aug') is None and any(e.data['name'] in l.get('carried', ()) for l in e.loops)]
-    ctx.require(lastW, 'collect_data_block: the shortened last sub-block (loop-carried window count) was not found')
-    ctx.formula('FORMULA', 'the last sub-block covers exactly the remainder T mod subblock_T', cdb, lastW[0].data['value'],
-                ctx.spec(cdb, 'int((TT % ST) / self.num_taps) + 1', env={'TT': TT, 'ST': ST}, I=J),
-                node=lastW[0].node)
-    want_g = ctx.spec(cdb, 'TT % ST != 0 and SB == self.num_subblocks - 1', env={'TT': TT, 'ST': ST, 'SB': lastW[0].loops[0]['index']},
-                      I=_with_heap(ctx, Ic, cdb))
-    ctx.formula('FORMULA', 'the window count is shortened only for a trailing partial sub-block', cdb, lastW[0].cond(), want_g,
-                node=lastW[0].node, construct=lastW[0].text()[:80] + ' [guard]')
+    # the window count of a sub-block is what is requested from the antenna source at the start of an observation, in units of
+    # one window (num_taps*num_branches samples): every sub-block asks for a full sub-block, a trailing partial one for the
+    # remainder  (stated on the request, whatever locals the code uses to get there)
+    req = [e for e in Ic.events if e.kind == 'call' and e.data.get('name') == '.get_samples' and e.loops
+           and 'antenna_source' in ast.unparse(e.data['recv_node'])]
+    ctx.require(len(req) == 1, 'collect_data_block: the per-sub-block request to the antenna source was not found')
+    so = T.mk_attr(T.mk_attr(sym('self'), 'antenna_source'), 'start_obs')
+    TB = ctx.spec(cdb, 'self.num_taps * self.num_branches', I=ctx.interp(expand=False))
+    W1 = T.assume(req[0].data['args'][1], {so.key: True}) / TB
+    JH = _with_heap(ctx, Ic, cdb)
+    wantW = ctx.spec(cdb, 'ITE(TT % ST != 0 and SB == self.num_subblocks - 1, int((TT % ST) / self.num_taps) + 1, ST / self.num_taps + 1)',
+                     env={'TT': TT, 'ST': ST, 'SB': req[0].loops[0]['index']}, I=JH)
+    ctx.formula('FORMULA', 'every sub-block requests a full sub-block of windows; only a trailing partial sub-block is shortened, to '
+                'exactly the remainder T mod subblock_T', cdb, W1, wantW, node=req[0].node,
+                construct='antenna_source.get_samples(...) [windows per sub-block]')
     # number of blocks chosen per length mode
     ctx.clause = 'D2b'
     T.NOTNONE.update({'obs_length', 'num_blocks'})
